@@ -52,6 +52,7 @@ type Event struct {
 	Args     []ValX    `json:"args,omitempty"`
 	N        int       `json:"n,omitempty"`
 	Site     string    `json:"site,omitempty"`
+	CommaOk  bool      `json:"commaok,omitempty"`
 }
 
 type Transition struct {
@@ -718,13 +719,16 @@ func (e *Exec) procRecv(cv Value, commaOk bool, t types.Type, elem types.Type) V
 		e.unsupported("receive on nil channel in process mode")
 	}
 	reg := e.siteName("rv") + "_c0"
-	ev := &Event{Kind: "select", Blocking: true, Site: e.siteName("recv"), Cases: []SelCase{{Dir: "recv", Chan: e.chanRef(c), Res: reg}}}
-	e.procEvent(ev, 1)
-	v := e.recvValue(elem, reg)
+	ev := &Event{Kind: "select", Blocking: true, Site: e.siteName("recv"), Cases: []SelCase{{Dir: "recv", Chan: e.chanRef(c), Res: reg}}, CommaOk: commaOk}
 	if commaOk {
-		return Tuple{v, Bool{C: true}}
+		if e.procEvent(ev, 2) == 1 {
+			e.lastEvent().Outcome = -2 // channel closed and drained
+			return Tuple{e.zero(elem), Bool{C: false}}
+		}
+		return Tuple{e.recvValue(elem, reg), Bool{C: true}}
 	}
-	return v
+	e.procEvent(ev, 1)
+	return e.recvValue(elem, reg)
 }
 
 func (e *Exec) procClose(cv Value) {
